@@ -125,10 +125,7 @@ theorem copy_reread (n : Note) (hd : Den n.dur) : copy (rereadNote n) = rereadNo
   · have hs : Sounding n.kind := by unfold Sounding; tauto
     apply copy_id
     · simpa [rereadNote, hk] using hs
-    · simp only [rereadNote, hk, ↓reduceIte]
-      split
-      · exact den_mul_zero _
-      · exact hd
+    · simpa [rereadNote, hk] using hd
 
 theorem rereadNote_kind (n : Note) : (rereadNote n).kind = n.kind := by
   by_cases hk : n.kind = .r ∨ n.kind = .l <;> simp [rereadNote, hk, restNote]
@@ -279,7 +276,7 @@ theorem withExt_accepted (elem : Int) (e : Ext) (h : ExtAccepted elem e) :
 
 /-! ### the closed form of a chord's round trip -/
 
-/-- the extension after the round trip: the stored one, except that `''` and `'5'` both come back as `''` -/
+/-- the extension after the round trip: the stored one (the empty text is read as the empty extension) -/
 def rereadExt (c : Chord) : Ext :=
   match extCodeOf c with
   | some e => e
@@ -298,10 +295,10 @@ theorem rereadExt_normalize (c : Chord) : (rereadExt c).normalize = rereadExt c 
   | none => exact normalize_empty
   | some e => simp only []; rw [extCodeOf_some c e h]; exact Eq.normalize_idem _
 
-theorem rereadExt_of_printed (c : Chord) (h1 : c.ext.normalize.toText ≠ "5") (h2 : c.ext.normalize.toText ≠ "") :
+theorem rereadExt_of_printed (c : Chord) (h2 : c.ext.normalize.toText ≠ "") :
     rereadExt c = c.ext.normalize := by
   unfold rereadExt extCodeOf
-  simp [h1, h2]
+  simp [h2]
 
 def rereadChord (c : Chord) : Chord :=
   { elem := c.elem, ext := rereadExt c, ton := c.ton, oct := c.oct, parts := rereadParts c.parts }
